@@ -43,6 +43,14 @@ def gen_base(seed, tier):
         for i in range(1, n):
             if rw.random() < 0.08:
                 mw["closeTick"][i] = None
+        rh = R.sub(seed, "prehistory", j)
+        if rh.random() < 0.3:
+            # the supplied frame is a slice of a longer loaded one: 1-7 minutes of history before the run, so the derived
+            # columns of the first row (price = previous close) are not what the slice alone would give
+            h = rh.choice([1, 2, 3, 7])
+            h = h + 1 if h == n else h  # never as long as the run (generic list walkers take n-long lists for minute series)
+            t_first = next(t for t in mw["closeTick"] if t is not None)
+            mw["pre"] = [{"closeTick": t_first + rh.randint(-300, 300), "inAmount0": mw["inAmount0"][0], "inAmount1": mw["inAmount1"][0]} for _ in range(h)]
         markets.append(mw)
         tokens[t0[0]] = t0[1]
         tokens[t1[0]] = t1[1]
